@@ -53,16 +53,25 @@ pub(crate) mod proofs {
             pa::force_pool(&pool, &s);
             let d0 = DROPS.load(SeqCst);
             let v: u8 = kani::any();
-            let by_id: bool = kani::any();
-            let u = if by_id {
+            // every way of creating the unique handle ...
+            let route: u8 = kani::any(); kani::assume(route < 3);
+            let u = if route == 0 {
                 let (slot, id) = pool.alloc_ref().unwrap();
                 unsafe { std::ptr::write(slot, Droppy(v)); }
                 Unique::from_allocated_id(id, &pool)
+            } else if route == 1 {
+                let (slot, _id) = pool.alloc_ref().unwrap();
+                unsafe { std::ptr::write(slot, Droppy(v)); }
+                Unique::from_allocated_ref(slot, &pool)
             } else {
                 Unique::new(|slot| unsafe { std::ptr::write(slot, Droppy(v)) }, &pool).unwrap()
             };
             let addr = (&*u) as *const Droppy;
-            let arc = u.into_ogre_arc();
+            assert!(addr == pool.ref_from_id(s.perm[0]) as *const Droppy,    "unique: owns pool slot free[0] whichever way it was created");
+            assert!(std::convert::AsRef::<Droppy>::as_ref(&u) as *const Droppy == addr && std::borrow::Borrow::<Droppy>::borrow(&u) as *const Droppy == addr, "unique: as_ref / borrow give the very same slot as deref");
+            // ... and every way of converting it into a shared one (the inherent method and the `From` impl)
+            let via_from: bool = kani::any();
+            let arc: OgreArc<Droppy, Pool> = if via_from { OgreArc::from(u) } else { u.into_ogre_arc() };
             assert!(DROPS.load(SeqCst) == d0,                                "into_ogre_arc: the value is NOT destroyed by the conversion");
             assert!(pa::free_count(&pool) == s.free - 1,                     "into_ogre_arc: the slot is NOT returned to the pool (no duplicate, no release)");
             assert!(arc.references_count() == 1,                             "into_ogre_arc: exactly one shared handle");
